@@ -33,12 +33,38 @@ import (
 // storeMmemoizer implements the memoization.
 type storeMemoizer struct {
 	s storage.Store
+
+	// All the handles of one graph share one memoizer; otherwise a write made
+	// through one handle would leave the caches of the others untouched.
+	mu     sync.Mutex
+	graphs map[string]*graphMemoizer
+}
+
+// memoizerFor returns the memoizer shared by all the handles of graph id,
+// creating it around g if there is none yet.
+func (s *storeMemoizer) memoizerFor(id string, g storage.Graph) *graphMemoizer {
+	s.mu.Lock()
+	defer s.mu.Unlock()
+	if m, ok := s.graphs[id]; ok {
+		return m
+	}
+	m := &graphMemoizer{
+		g:    g,
+		memN: make(map[string][]*node.Node),
+		memP: make(map[string][]*predicate.Predicate),
+		memO: make(map[string][]*triple.Object),
+		memT: make(map[string][]*triple.Triple),
+		memE: make(map[string]bool),
+	}
+	s.graphs[id] = m
+	return m
 }
 
 // New returns a new memoized driver.
 func New(s storage.Store) storage.Store {
 	return &storeMemoizer{
-		s: s,
+		s:      s,
+		graphs: make(map[string]*graphMemoizer),
 	}
 }
 
@@ -59,14 +85,7 @@ func (s *storeMemoizer) NewGraph(ctx context.Context, id string) (storage.Graph,
 	if err != nil {
 		return nil, err
 	}
-	return &graphMemoizer{
-		g:    g,
-		memN: make(map[string][]*node.Node),
-		memP: make(map[string][]*predicate.Predicate),
-		memO: make(map[string][]*triple.Object),
-		memT: make(map[string][]*triple.Triple),
-		memE: make(map[string]bool),
-	}, nil
+	return s.memoizerFor(id, g), nil
 }
 
 // Graph returns an existing graph if available. Getting a non existing
@@ -76,20 +95,20 @@ func (s *storeMemoizer) Graph(ctx context.Context, id string) (storage.Graph, er
 	if err != nil {
 		return nil, err
 	}
-	return &graphMemoizer{
-		g:    g,
-		memN: make(map[string][]*node.Node),
-		memP: make(map[string][]*predicate.Predicate),
-		memO: make(map[string][]*triple.Object),
-		memT: make(map[string][]*triple.Triple),
-		memE: make(map[string]bool),
-	}, nil
+	return s.memoizerFor(id, g), nil
 }
 
 // DeleteGraph deletes an existing graph. Deleting a non existing graph
 // should return an error.
 func (s *storeMemoizer) DeleteGraph(ctx context.Context, id string) error {
-	return s.s.DeleteGraph(ctx, id)
+	err := s.s.DeleteGraph(ctx, id)
+	if err == nil {
+		// A graph created later under the same name starts with empty caches.
+		s.mu.Lock()
+		delete(s.graphs, id)
+		s.mu.Unlock()
+	}
+	return err
 }
 
 // GraphNames returns the current available graph names in the store.
